@@ -2,4 +2,4 @@
 # $1 = cppcheck binary. The text of a finding must not depend on the executor.
 B=$1; D=$(cd "$(dirname "$0")" && pwd); cd $D; T="--template={file}:{line}:{id}:{message}"
 a=$($B -q -j1 $T a.c b.c 2>&1 | grep preprocessorErrorDirective); b=$($B -q -j2 --executor=process $T a.c b.c 2>&1 | grep preprocessorErrorDirective)
-echo "-j1:      $a"; echo "process:  $b"; [ "$a" = "$b" ]
+printf "%s\n" "-j1:      $a" "process:  $b"; [ "$a" = "$b" ]
